@@ -209,8 +209,9 @@ def build_subst_contract(ctx, py):
         return c[0] == 'cmp' and c[1] == '==' and {c[2], c[3]} == {mv, pat}
 
     n = 0
-    ret = fn.body[-1]
-    comp = ret.value if isinstance(ret, ast.Return) and isinstance(ret.value, ast.DictComp) else None
+    from .c16 import returned_exprs
+    rvs = [v for st, v in returned_exprs(fn) if st is fn.body[-1]]
+    comp = rvs[0] if rvs and isinstance(rvs[0], ast.DictComp) else None
     if comp is not None:
         # {i: p for i, p in enumerate(pats) if p != MetaVar(i)}
         g = comp.generators[0]
